@@ -6,7 +6,7 @@ from harness import table_scorers as ts
 from harness.engine import coq_bad_cases, coq_eval, coq_list, pairs_nat, zlist, zlit, zmat
 
 INFO = {
-    "extra_targets": ["Check/CapaCheck.vo", "Check/GenericCapaCheck.vo"],
+    "extra_targets": ["Check/CapaCheck.vo", "Check/GenericCapaCheck.vo", "Check/FloatRunCheck.vo"],
     "level": "proof",
     "rule": "integer table savings (p = 1..4 columns) driven through the real CAPA (penalties assigned after fit) and MVCAPA "
             "(user penalty callables returning integer (alpha, betas): zero / equal / increasing / unordered betas): stream A = "
